@@ -7,6 +7,7 @@ import (
 	"strconv"
 	"strings"
 	"sync"
+	"time"
 
 	"verif/tools/internal/ssax"
 
@@ -19,6 +20,7 @@ import (
 
 // e3Env bundles what the E3 roots need.
 type e3Env struct {
+	start    time.Time
 	c        *Ctx
 	p        *core.Program
 	a        *Anchors
@@ -64,8 +66,21 @@ func (env *e3Env) runEscalating(cfg absint.Config, fn *ssa.Function, setup func(
 	e.RunRoot(fn, setup)
 	bad := env.unlistedFailures(e)
 	level := 0
+	// Escalation is bounded in time (it only happens on a tree that already fails at the
+	// normal precision, so the bound cannot turn a passing run into a failing one; it
+	// keeps a failing tree from costing tens of minutes): no new attempt once the check
+	// has run for escLimit, and each attempt has its own deadline, after which it counts
+	// as not better than the run before.
+	escLimit, escRun := 240*time.Second, 180*time.Second
+	if env.c.Tier == "thorough" {
+		escLimit, escRun = 1200*time.Second, 900*time.Second
+	}
 	for attempt := 1; attempt <= 2 && bad > 0; attempt++ {
+		if time.Since(env.start) > escLimit {
+			break
+		}
 		c2 := cfg
+		c2.Deadline = time.Now().Add(escRun)
 		c2.K = cfg.K << uint(attempt)
 		if cfg.ResultCap > 0 {
 			c2.ResultCap = cfg.ResultCap << uint(attempt)
@@ -82,7 +97,7 @@ func (env *e3Env) runEscalating(cfg absint.Config, fn *ssa.Function, setup func(
 }
 
 func newE3Env(c *Ctx, r *core.Result) *e3Env {
-	env := &e3Env{c: c, p: c.P, k: 8}
+	env := &e3Env{c: c, p: c.P, k: 8, start: time.Now()}
 	if c.Tier == "thorough" {
 		env.k = 12
 	}
